@@ -698,7 +698,18 @@ STATEMENTS = {
 	'balance_iff': 'with nothing left open: #INDENT = #DEDENT iff every increase is exactly one unit',
 	'balance_counterexample': 'NOT balance_statement: `if a:\\n    if b:\\n            x\\n    y` gives 2 INDENT / 3 DEDENT (boundary B1, replayed on the real code)',
 	'width': 'rescaling all line-break widths from multiples of u to the same multiples of u\' leaves _rebuild\'s result unchanged up to source maps (any u, u\' > 0, any token list, errors included)',
-	'layout_tokens_partial': 'within one logical line post_filter keeps exactly the significant tokens: any insertion/removal of Comment / WhiteSpace raw tokens leaves post_filter and _rebuild unchanged (full sentence = layout_tokens_statement, searched on the real code)',
+	'pyDef_layoutReady / gramDef_layoutReady': 'every side condition of the layout theorems decided for both generated definitions (comment ends at newline, blank-free openers/combined symbols, white space in no other alphabet, analyse order white space/comment first, shipped post filters, regex filter needs a non-white-space character)',
+	'post_filter_norm': 'closed form of post_filter on raw lists without adjacent line breaks whose line breaks are non-empty white space: significant tokens, runs of line breaks (separated only by comments/white space) joined, no line break first or last; exact side conditions of the regex and first/last passes',
+	'raw_filterable': 'everything parse_impl returns satisfies these side conditions; its line break tokens contain a newline',
+	'layout_tokens_norm / layout_tokens_sig / layout_linebreak / layout_tokens': 'full token-level layout law across line breaks: _rebuild . post_filter depends only on norm up to last-line widths — inserting/removing Comment/WhiteSpace tokens anywhere, comment between two line breaks (merged), comment-only lines, trailing blanks, replacing a line break by one of the same last-line width; layout_tokens proves the former layout_tokens_statement',
+	'layout_tokens_partial': 'within one logical line post_filter keeps exactly the significant tokens (no shape condition)',
+	'lex_local': 'parse_impl up to source maps = first token, then parse_impl of the rest (suffix locality)',
+	'first_token_stable': 'the first token is unchanged when what follows changes, provided no blank-free look-ahead pattern newly matches, the next character keeps its role for the token kind, and a string literal is terminated',
+	'lex_prefix': 'whole tokens in front are lexed identically when the rest is replaced compatibly (prefix congruence)',
+	'layout_chars_blank': 'END TO END: inserting blanks between two raw tokens / before a line end, or blank lines at a line end, leaves Tokenizer.parse unchanged up to source maps (last token before the insertion not white space/comment, a minus only if already followed by white space)',
+	'layout_chars_comment': 'END TO END: inserting blanks + a comment at a line end leaves Tokenizer.parse unchanged up to source maps',
+	'layout_chars_comment_line': 'END TO END: inserting a comment-only line (any indentation) before a line end leaves Tokenizer.parse unchanged up to source maps',
+	'width_end_to_end': 'END TO END: re-indenting every line from m*u to m*u\' characters (tabs vs any consistent space width) leaves Tokenizer.parse unchanged up to source maps',
 }
 
 
@@ -720,8 +731,8 @@ def run(ctx: Ctx) -> int:
 		translate_ok=translate_ok, translate_msg=translate_msg,
 		statements=STATEMENTS,
 		partial={
-			'proved': 'concat / progress / totality / span for parse_impl under every definition satisfying the decided side conditions; INDENT/DEDENT accounting of _rebuild (and its falsity for over-indented blocks); width invariance of _rebuild; layout_tokens for single logical lines',
-			'stated_not_proved': 'layout_tokens_statement (token-level insertion/removal across line breaks): searched on the real code by search_token_layout',
+			'proved': 'concat / progress / totality / span for parse_impl; INDENT/DEDENT accounting of _rebuild (and its falsity for over-indented blocks); closed form of post_filter; the layout sentence at token level in full and at character level end to end for blanks, blank lines, trailing comments, comment-only lines and the indentation unit (each rewrite step at a token boundary; composition by transitivity)',
+			'not_proved': 'removal of blanks that are the only separation of two tokens is covered only in the direction "insert" (the equalities are symmetric, but the premise is stated on the source without the blanks); a comment directly after a token without a blank; layout changes inside brackets are covered (line breaks there are ordinary raw tokens) but not singled out; unterminated string literals are excluded by hypothesis; equality with CPython stays search-only',
 			'correspondence_only': 'the model is the code (three streams); post filter regex semantics (re.split) for the one pattern TokenDefinition ships',
 			'search_only': 'equality with CPython tokenize on the supported subset; the character-level layout rewrites (comments, blank lines, spaces around operators)',
 		},
